@@ -339,6 +339,10 @@ fn spec_free(c: Cell, x: &RowCtx) -> Option<&'static str> {
                 ("hasher", "hasher") => match col {
                     4..=15 => None, // state: the round function ties it to a neighbouring row
                     2 | 3 if (1..=6).contains(&(r % 8)) => None, // s1, s2 are copied inside a cycle
+                    // s0 of the first row of a cycle is 0 after an absorption (hasher.md: s0' * (f_abp + f_mpa + f_mva +
+                    // f_mua) = 0; the same section leaves it unconstrained in all other cases, although the informal
+                    // list above it asks for 1 after an output row)
+                    1 if r % 8 == 0 && x.cur[CHIP + 1].as_int() == 1 => None,
                     16 if r % 8 != 0 => None, // node index is constant inside a cycle
                     _ => Some("hasher s0 is unconstrained inside a cycle; selectors / index at cycle boundaries follow flag-dependent rules that are not classified here"),
                 },
